@@ -973,6 +973,15 @@ where
     where
         U: for<'enc> Encoding<'enc>,
     {
+        // If we're the same, there is nothing to rebuild and we only need to validate the path
+        if T::label() == U::label() {
+            return if self.is_valid() {
+                Ok(Path::new(self.as_bytes()).to_path_buf())
+            } else {
+                Err(CheckedPathError::InvalidFilename)
+            };
+        }
+
         let mut path = PathBuf::new();
 
         // For root, current, and parent we specially handle to convert to the appropriate type,
